@@ -371,8 +371,6 @@ class BGP(protocol.Protocol):
             "[%s]Send a BGP Notification message to the peer "
             "[Error: %s, Suberror: %s, Error data: %s ]",
             self.factory.peer_addr, error, sub_error, repr(data))
-        # message statistic
-        self.msg_sent_stat['Notifications'] += 1
         # construct message
         msg_notification = Notification().construct(error, sub_error, data)
         # send message
